@@ -1,5 +1,3 @@
-//go:build wip_c07
-
 package props
 
 import (
@@ -553,7 +551,8 @@ func c07ExitGoroutines(m *cmModel, f *kit.Func) []*c07ExitGo {
 
 // c07GoFlow checks the body of an exit goroutine: on every path the run of
 // valObj returns and afterwards keyObj is sent on an exit channel.
-// It returns "" or the defect, and the exits' path for the report.
+// It returns "" or the defect, the path of the offending exit, and the signal
+// sends that are executed after the run returned.
 func c07GoFlow(c *kit.Ctx, m *cmModel, g *c07ExitGo, valObj, keyObj types.Object) (bad string, path []string, sends []*ast.SendStmt) {
 	gf := g.gf
 	info := gf.Info()
@@ -578,7 +577,9 @@ func c07GoFlow(c *kit.Ctx, m *cmModel, g *c07ExitGo, valObj, keyObj types.Object
 		switch x := n.(type) {
 		case *ast.SendStmt:
 			if isSignal(x) {
-				sends = append(sends, x)
+				if s.Get("ran") == "1" {
+					sends = append(sends, x)
+				}
 				s = s.Set("sig", "1")
 			}
 		case *ast.DeferStmt:
@@ -600,7 +601,7 @@ func c07GoFlow(c *kit.Ctx, m *cmModel, g *c07ExitGo, valObj, keyObj types.Object
 					}
 				}
 				if all {
-					sends = append(sends, dsends...)
+					sends = append(sends, dsends...) // runs when the goroutine's function returns, i.e. after the run
 					s = s.Set("dsig", "1")
 				}
 			}
@@ -825,11 +826,9 @@ func c07R4(c *kit.Ctx, m *cmModel, r *kit.Rule) {
 			continue
 		}
 		for _, g := range c07ExitGoroutines(m, sto.f) {
-			b, _, sends := c07GoFlow(c, m, g, valObj, keyObj)
-			if b == "" {
-				for _, s := range sends {
-					accepted[s] = "exit goroutine " + g.gf.Name + " after the run returned"
-				}
+			_, _, sends := c07GoFlow(c, m, g, valObj, keyObj)
+			for _, s := range sends {
+				accepted[s] = "exit goroutine " + g.gf.Name + " after the run returned"
 			}
 		}
 	}
@@ -1149,7 +1148,7 @@ func c07R5(c *kit.Ctx, m *cmModel, r *kit.Rule) {
 				case rem == nil:
 					v.bad = "there is no loop over the client-state map that stops the clients whose key was not listed"
 				case e.State.Has("rit"):
-					v.bad = "the removal loop is left early (return inside the loop); the remaining clients of vanished nodes keep running"
+					v.bad = "the removal loop is left early (return or break inside the loop); the remaining clients of vanished nodes keep running"
 				default:
 					v.bad = "returns success without having run the loop that stops clients whose node was not listed: the client of a node that vanished keeps running"
 				}
@@ -1426,23 +1425,44 @@ func c07R6(c *kit.Ctx, m *cmModel, r *kit.Rule) {
 		}
 	}
 
-	// (d) run: returns only after the stop request, which is forwarded to the client
+	// (d) run returns only after the stop request was forwarded to the client,
+	// or after the client's own Run has returned
 	for _, rf := range m.runM {
 		c.Analysed(rf)
 		rinfo := rf.Info()
-		o := r.Ob(rf, nil, "client state run", "returns only after receiving from the stop channel and calling the client's Stop")
-		st := &kit.Std{F: rf}
-		isStopRecv := func(e ast.Expr) bool {
+		o := r.Ob(rf, nil, "client state run", "returns only after the client's Run returned, or after receiving from the stop channel and calling the client's Stop")
+		done := c07DoneChans(c, m, rf)
+		recvOf := func(e ast.Expr) (stop, fin bool) {
 			u, ok := ast.Unparen(e).(*ast.UnaryExpr)
-			return ok && u.Op == token.ARROW && cmField(rinfo, u.X) == m.csStopCh
+			if !ok || u.Op != token.ARROW {
+				return false, false
+			}
+			if cmField(rinfo, u.X) == m.csStopCh {
+				return true, false
+			}
+			if _, isID := ast.Unparen(u.X).(*ast.Ident); isID && done[kit.ObjOf(rinfo, u.X)] {
+				return false, true
+			}
+			return false, false
 		}
-		st.OnNode = func(n ast.Node, s kit.S) []kit.S {
-			// a plain receive statement (not a select comm: those sit in the select header and are handled by OnBranch)
-			if es, ok := n.(*ast.ExprStmt); ok && isStopRecv(es.X) && !cmIsSelectComm(rf, es) {
+		mark := func(s kit.S, e ast.Expr) kit.S {
+			stop, fin := recvOf(e)
+			if stop {
 				s = s.Set("rx", "1")
 			}
-			if as, ok := n.(*ast.AssignStmt); ok && len(as.Rhs) == 1 && isStopRecv(as.Rhs[0]) && !cmIsSelectComm(rf, as) {
-				s = s.Set("rx", "1")
+			if fin {
+				s = s.Set("fin", "1")
+			}
+			return s
+		}
+		st := &kit.Std{F: rf}
+		st.OnNode = func(n ast.Node, s kit.S) []kit.S {
+			// plain receive statements; select comms sit in the select header and are handled by OnBranch
+			if es, ok := n.(*ast.ExprStmt); ok && !cmIsSelectComm(rf, es) {
+				s = mark(s, es.X)
+			}
+			if as, ok := n.(*ast.AssignStmt); ok && len(as.Rhs) == 1 && !cmIsSelectComm(rf, as) {
+				s = mark(s, as.Rhs[0])
 			}
 			return []kit.S{s}
 		}
@@ -1450,8 +1470,9 @@ func c07R6(c *kit.Ctx, m *cmModel, r *kit.Rule) {
 			if br.Kind != kit.BrSelect || br.Comm.Comm == nil {
 				return nil, nil, false
 			}
-			if ch, _, ok := cmRecvComm(br.Comm.Comm); ok && cmField(rinfo, ch) == m.csStopCh {
-				return []kit.S{s.Set("rx", "1")}, []kit.S{s}, true
+			if ch, _, ok := cmRecvComm(br.Comm.Comm); ok {
+				s2 := mark(s, &ast.UnaryExpr{Op: token.ARROW, X: ch})
+				return []kit.S{s2}, []kit.S{s}, true
 			}
 			return nil, nil, false
 		}
@@ -1473,12 +1494,12 @@ func c07R6(c *kit.Ctx, m *cmModel, r *kit.Rule) {
 				continue
 			}
 			n++
-			if bad != "" {
+			if bad != "" || e.State.Get("fin") == "1" {
 				continue
 			}
 			switch {
 			case e.State.Get("rx") != "1":
-				bad = "run can return before a stop was requested: the exit signal deletes the entry and a second client is started while the first may still run"
+				bad = "run can return while the client is running and no stop was requested: the exit signal deletes the entry and a second client is started for the same placement"
 				badExit = e
 			case e.State.Get("fwd") != "1":
 				bad = "run can return after the stop request without calling the client's Stop: the client keeps running while its entry is deleted"
@@ -1491,9 +1512,121 @@ func c07R6(c *kit.Ctx, m *cmModel, r *kit.Rule) {
 		case n == 0:
 			o.Undecided("run has no return")
 		default:
-			o.OK("receive from %s, then Stop on the client, on every path to a return", m.csStopCh.Name())
+			o.OK("every return follows a receive from %s plus Stop on the client, or the end of the client's Run", m.csStopCh.Name())
 		}
 	}
+}
+
+// c07DoneChans returns the local channels of rf on which a receive proves that
+// the client's Run has returned: every close of / send on the channel inside
+// rf lies in a goroutine literal at a point dominated by the return of the
+// interface's Run call.
+func c07DoneChans(c *kit.Ctx, m *cmModel, rf *kit.Func) map[types.Object]bool {
+	info := rf.Info()
+	after := map[types.Object]int{}  // signalled after Run returned
+	other := map[types.Object]bool{} // signalled elsewhere
+	chanOf := func(n ast.Node) types.Object {
+		var e ast.Expr
+		switch x := n.(type) {
+		case *ast.SendStmt:
+			e = x.Chan
+		case *ast.CallExpr:
+			if cmIsBuiltin(info, x, "close") && len(x.Args) == 1 {
+				e = x.Args[0]
+			}
+		}
+		if e == nil {
+			return nil
+		}
+		if _, isID := ast.Unparen(e).(*ast.Ident); !isID {
+			return nil
+		}
+		if o := kit.ObjOf(info, e); o != nil && cmIsLocal(o) && cmIsChan(o.Type()) {
+			return o
+		}
+		return nil
+	}
+	var lits []*kit.Func
+	cmOwn(rf.Body, func(n ast.Node) bool {
+		if o := chanOf(n); o != nil {
+			other[o] = true
+		}
+		if gs, ok := n.(*ast.GoStmt); ok {
+			if gl := rf.CalleeFunc(gs.Call); gl != nil && gl.Lit != nil {
+				lits = append(lits, gl)
+			}
+		}
+		return true
+	})
+	for _, gl := range lits {
+		st := &kit.Std{F: gl}
+		st.OnCall = func(call *ast.CallExpr, n ast.Node, s kit.S) []kit.S {
+			if x, ok := m.ifaceCall(info, call, "Run"); ok && cmField(info, x) == m.csClient {
+				return []kit.S{s.Set("ran", "1")}
+			}
+			if o := chanOf(call); o != nil {
+				if s.Get("ran") == "1" {
+					after[o]++
+				} else {
+					other[o] = true
+				}
+			}
+			return nil
+		}
+		st.OnNode = func(n ast.Node, s kit.S) []kit.S {
+			if o := chanOf(n); o != nil {
+				if s.Get("ran") == "1" {
+					after[o]++
+				} else {
+					other[o] = true
+				}
+			}
+			return []kit.S{s}
+		}
+		c.P.Graph(gl).Run(kit.NewS(), st.Client())
+		// signals in literals nested deeper are not understood
+		for _, call := range gl.AllCalls(true) {
+			_ = call
+		}
+		ast.Inspect(gl.Body, func(n ast.Node) bool {
+			if l, ok := n.(*ast.FuncLit); ok && l != gl.Lit {
+				ast.Inspect(l.Body, func(x ast.Node) bool {
+					if o := chanOf(x); o != nil {
+						other[o] = true
+					}
+					return true
+				})
+				return false
+			}
+			return true
+		})
+	}
+	// literals of rf that are not go-launched
+	ast.Inspect(rf.Body, func(n ast.Node) bool {
+		l, ok := n.(*ast.FuncLit)
+		if !ok {
+			return true
+		}
+		for _, gl := range lits {
+			if gl.Lit == l {
+				return false
+			}
+		}
+		ast.Inspect(l.Body, func(x ast.Node) bool {
+			if o := chanOf(x); o != nil {
+				other[o] = true
+			}
+			return true
+		})
+		return false
+	})
+	out := map[types.Object]bool{}
+	for o, n := range after {
+		if n > 0 && !other[o] {
+			out[o] = true
+		}
+	}
+	return out
 }
 
 func cmEnclosingSelect(f *kit.Func, cc *ast.CommClause) *ast.SelectStmt {
